@@ -327,6 +327,12 @@ class SparseArray:
         if getattr(ufunc, "signature", None) is not None:
             return self.__array_function__(ufunc, (np.ndarray, type(self)), inputs, kwargs)
 
+        if getattr(ufunc, "nout", 1) != 1:
+            # `elemwise` computes single-output functions only
+            if ufunc is np.divmod and method == "__call__" and out is None:
+                return np.floor_divide(*inputs, **kwargs), np.remainder(*inputs, **kwargs)
+            return NotImplemented
+
         if out is not None:
             # ones, not uninitialised memory: the trial call must not depend on leftovers (integer power raises for a negative exponent)
             test_args = [np.ones((1,), dtype=a.dtype) if hasattr(a, "dtype") else a for a in inputs]
